@@ -2060,17 +2060,18 @@ fn split_unsigned_range(
             ));
         }
         if range[0] >= min as u128 && range[1] - 1 <= max as u128 {
+            // range[1] can be 2^64 (one past the maximum of u64): subtract before narrowing
             if range[0] < range[1] - 1 {
                 ranges.push(Ctor::UnsignedInclusiveRange(
                     ty,
                     range[0] as u64 + 1,
-                    range[1] as u64 - 1,
+                    (range[1] - 1) as u64,
                 ));
             } else {
                 ranges.push(Ctor::UnsignedInclusiveRange(
                     ty,
                     range[0] as u64,
-                    range[1] as u64 - 1,
+                    (range[1] - 1) as u64,
                 ));
             }
         }
